@@ -32,7 +32,16 @@ func main() {
 		noEv   = flag.Bool("no-evidence", false, "do not write evidence/replay files (used by the variant sweep)")
 		jsonO  = flag.Bool("json", false, "print obligations as JSON (used by the variant sweep)")
 	)
+	extra := flag.String("extra", "", "JSON object merged into the evidence coverage (results of the variant sweep)")
+	genV := flag.String("gen-variants", "", "write single-edit variants of the library sources of -repo into this directory and exit")
 	flag.Parse()
+	if *genV != "" {
+		if err := genVariants(*repo, *genV); err != nil {
+			fmt.Println(err)
+			os.Exit(2)
+		}
+		return
+	}
 	seed := int64(0)
 	if s := os.Getenv("VERIF_SEED"); s != "" {
 		seed, _ = strconv.ParseInt(s, 10, 64)
@@ -87,6 +96,16 @@ func main() {
 			}
 			sort.Strings(info.Packages)
 			info.Functions = len(w.Funcs)
+		}
+		if *extra != "" {
+			if b, e := os.ReadFile(*extra); e == nil {
+				var m map[string]any
+				if json.Unmarshal(b, &m) == nil {
+					for k, v := range m {
+						info.Extra[k] = v
+					}
+				}
+			}
 		}
 		info.Wall = time.Since(t0).Seconds()
 		if len(ids) == 1 {
